@@ -79,6 +79,11 @@ func (b *baseCockpit) remove(t *task.Task) {
 		}
 	}
 
+	if b.spinner == nil {
+		// the task finished without ever being added (skipped, failed hook)
+		return
+	}
+
 	var mark = aurora.Green("✔")
 	if t.Errored {
 		mark = aurora.Red("✗")
